@@ -169,6 +169,8 @@ impl ExpertNode {
         } else {
             self.force_stale.set(false);
             if self.will_fire_all_callbacks.replace(false) {
+                #[cfg(cormacrelf_incremental_rs_verif)]
+                crate::verif::probe(crate::verif::Probe::ExpertFireAll);
                 let borrow_span = tracing::debug_span!(
                     "expert.children.borrow_mut() in ExpertNode::before_main_computation"
                 );
@@ -214,6 +216,8 @@ impl ExpertNode {
             let Some(child) = child else {
                 return;
             };
+            #[cfg(cormacrelf_incremental_rs_verif)]
+            crate::verif::probe(crate::verif::Probe::ExpertEdgeCallback);
             child.on_change()
         }
     }
